@@ -187,6 +187,19 @@ func (a *c09) eccentricity() {
 			if g == nil || c.P.Decl(g) == nil || c.P.DeclPkg(g) != a.p {
 				return true
 			}
+			// only helpers that compute a number from their arguments give a parameter a meaning;
+			// a generic comparison or printing helper takes e here and e² there without harm
+			computes := false
+			if rs := g.Type().(*types.Signature).Results(); rs != nil {
+				for k := 0; k < rs.Len(); k++ {
+					if isFloat64(rs.At(k).Type()) {
+						computes = true
+					}
+				}
+			}
+			if !computes {
+				return true
+			}
 			for i, arg := range call.Args {
 				if t := ty(arg, 0); t == tyE || t == tyES {
 					if sites[g] == nil {
